@@ -173,6 +173,7 @@ func (r *runner) step(op Op) {
 	switch op.Op {
 	case "rdb", "aofonly":
 		r.closeStale()
+		r.ch.StopWriter() // a new run: the previous run's writer was stopped when that run ended
 		if r.ch.C.RunId() != "" {
 			if err := r.ch.C.DelRunId(r.ch.C.RunId()); err != nil {
 				r.inconc = "DelRunId: " + err.Error()
@@ -296,6 +297,7 @@ func (r *runner) step(op Op) {
 			return
 		}
 		r.closeStale()
+		r.ch.StopWriter()
 		r.epoch++
 		if err := r.ch.C.DelRunId(r.id); err != nil {
 			r.inconc = "DelRunId: " + err.Error()
